@@ -402,12 +402,12 @@ def process_extract(gen, sec, vu_path):
             rx, name = parse_regex_arg(d['arg'], where)
             name, _, opts = name.partition(' ')
             s, e = uniq(rx, d, opts)
-            edits.append((s, s, '{ let %s = ' % name, 'gen', 'R8 bind-tail'))
+            edits.append((s, s, '({ let %s = ' % name, 'gen', 'R8 bind-tail'))
             body = '\n'.join(l for _, l in d['text'])
             first = d['text'][0][0] if d['text'] else d['line']
             edits.append((e, e, '; ', 'gen', 'R8 bind-tail'))
             edits.append((e, e, body + '\n', 'spec', (vu_path, first, d)))
-            edits.append((e, e, ' %s }' % name, 'gen', 'R8 bind-tail'))
+            edits.append((e, e, ' %s })' % name, 'gen', 'R8 bind-tail'))
             gen.rules.append({'rule': 'R8 bind-tail', 'item': item_name, 'file': relfile,
                               'line': item.line_of(item.start + s), 'before': text[s:e]})
         elif n == 'replace':
